@@ -92,6 +92,16 @@ func (m *Machine) block(reason string) {
 func (m *Machine) dispatch() {
 	cur := m.cur
 	rs := m.runnable()
+	if len(rs) == 0 && m.quiescing {
+		// everybody else is blocked or done: resume the main goroutine waiting at harness end
+		g0 := m.gs[0]
+		g0.blocked = false
+		if cur == g0 {
+			return
+		}
+		m.switchTo(g0)
+		return
+	}
 	if len(rs) == 0 {
 		// deadlock: every goroutine blocked
 		var parts []string
@@ -176,6 +186,13 @@ func (m *Machine) spawn(fr *frame, pos token.Pos, fn Value, args []Value) {
 		case nil:
 			m.notifyAll()
 			rs := m.runnable()
+			if len(rs) == 0 && m.quiescing {
+				g0 := m.gs[0]
+				g0.blocked = false
+				m.cur = g0
+				g0.wake <- struct{}{}
+				return
+			}
 			if len(rs) == 0 {
 				var parts []string
 				for _, og := range m.gs {
